@@ -672,3 +672,5 @@ func propC03() Prop[C03Case] {
 func TestC03(t *testing.T) { Run(t, propC03()) }
 
 func FuzzGenC03(f *testing.F) { RunFuzz(f, propC03()) }
+
+func TestRaceC03(t *testing.T) { RunConcurrent(t, propC03(), 4) }
